@@ -25,8 +25,9 @@ class Reader(imm.RecordingConsumer):
     step_plan: [(after_steps, action, arg)] evaluated by the driver between scheduler steps
     actions: 'pause' (arg = scheduler steps until resume), 'stop', 'stop-sibling' (arg = Reader)"""
 
-    def __init__(self, ck, label, offset, size, expected, byte_plan=(), step_plan=()):
+    def __init__(self, ck, label, offset, size, expected, byte_plan=(), step_plan=(), decode_plan=()):
         imm.RecordingConsumer.__init__(self, None)
+        self.decode_plan = list(decode_plan)   # [(skip, action, arg)] fired at the skip+1-th step with a segment decode in flight
         self.ck = ck
         self.label = label
         self.offset, self.size = offset, size
@@ -125,9 +126,19 @@ class Reader(imm.RecordingConsumer):
         while self.step_plan and (self.steps_alive >= self.step_plan[0][0] or stalled) and not self.stop_called:
             (_, action, arg) = self.step_plan.pop(0)
             self._do(action, arg, inside=False)
+        if self.decode_plan and not self.stop_called and (env.thread_jobs or stalled):
+            # a zfec decode (defer_to_thread) is pending: a moment at which a real reactor can run our consumer
+            (skip, action, arg) = self.decode_plan[0]
+            if skip > 0 and not stalled:
+                self.decode_plan[0] = (skip - 1, action, arg)
+            else:
+                self.decode_plan.pop(0)
+                if env.thread_jobs:
+                    self.ck.hit("flow-control-while-decode-in-flight")
+                self._do(action, arg, inside=False)
 
     def idle_plan(self):
-        return not self.paused and not self.step_plan
+        return not self.paused and not self.step_plan and not self.decode_plan
 
 
 # --------------------------------------------------------------------------- driving
@@ -283,27 +294,31 @@ def gen_range(rng, size, seg, near=None):
 
 
 def gen_plan(rng, explen, seg, kind, allow_stop=True):
-    """(byte_plan, step_plan, label) for one reader; sibling stops are wired by the caller."""
+    """(byte_plan, step_plan, decode_plan, label) for one reader; sibling stops are wired by the caller."""
     r = rng.random()
     thresholds = [0, 1, seg - 1, seg, seg + 1, max(0, explen - 1), explen, rng.randint(0, max(0, explen))]
     if r < .25:
-        return [], [], "plain"
-    if r < .55:
+        return [], [], [], "plain"
+    if r < .50:
         bp = []
         for _ in range(rng.choice([1, 1, 2, 3])):
             bp.append((rng.choice(thresholds), "pause", rng.choice([0, 1, 2, 3, 5, 8, 13, 30, 80])))
-        return bp, [], "pause-in-write"
-    if r < .68:
+        return bp, [], [], "pause-in-write"
+    if r < .60:
         sp = [(rng.choice([0, 1, 2, 3, 5, 8, 13, 21, 40]), "pause", rng.choice([1, 2, 5, 13, 40]))]
-        return [], sp, "pause-at-step"
+        return [], sp, [], "pause-at-step"
+    if r < .65:
+        return [], [], [(rng.choice([0, 0, 1, 2]), "pause", rng.choice([1, 2, 5, 13]))], "pause-during-decode"
     if not allow_stop:
-        return [], [], "plain"
-    if r < .80:
-        return [(rng.choice(thresholds), "stop", None)], [], "stop-in-write"
-    if r < .93:
-        return [], [(rng.choice([0, 1, 2, 3, 4, 5, 6, 8, 10, 13, 17, 21, 30, 45]), "stop", None)], "stop-at-step"
+        return [], [], [], "plain"
+    if r < .76:
+        return [(rng.choice(thresholds), "stop", None)], [], [], "stop-in-write"
+    if r < .86:
+        return [], [(rng.choice([0, 1, 2, 3, 4, 5, 6, 8, 10, 13, 17, 21, 30, 45]), "stop", None)], [], "stop-at-step"
+    if r < .94:
+        return [], [], [(rng.choice([0, 0, 0, 1, 2, 3]), "stop", None)], "stop-during-decode"
     bp = [(rng.choice(thresholds), "pause", rng.choice([3, 10, 40]))]
-    return bp, [(rng.choice([1, 3, 8, 20, 50]), "stop", None)], "pause-then-stop"
+    return bp, [(rng.choice([1, 3, 8, 20, 50]), "stop", None)], [], "pause-then-stop"
 
 
 def gen_file(rng, tier):
@@ -369,8 +384,8 @@ def sampled_case(ck, rng, i, DownloadStopped):
                 off, sz = gen_range(rng, p["size"], seg, near=prev)
                 prev = (off, sz if sz is not None else p["size"])
                 exp = expected_slice(data, off, sz)
-                bp, sp, label = gen_plan(rng, len(exp), seg, kind)
-                r = Reader(ck, label, off, sz, exp, bp, sp)
+                bp, sp, dp, label = gen_plan(rng, len(exp), seg, kind)
+                r = Reader(ck, label, off, sz, exp, bp, sp, dp)
                 readers.append(r)
                 starts.append((rng.randint(0, stagger * j) if stagger else 0, r,
                                (lambda r=r, off=off, sz=sz: node.read(r, off, sz))))
